@@ -20,10 +20,15 @@ from ..worldgen import make_entry
 
 LEVEL_NOTE = ("theorems: trash-list is a function of the bag (one event per info name, no call); the put core adds exactly one "
               "element to the bag of the chosen directory and leaves every other bag alone; purging and restoring remove "
-              "exactly the selected element. The induction over string-level histories is validated by the history runs")
+              "exactly the selected element; C09Hist.history: by induction over ANY history of put/purge/restore operations "
+              "on a trash directory (invariant TrashInv + local conditions Op.ok) the bag is the fold of the abstract "
+              "add/remove steps, and list_after_history: the listing shows exactly the live names. Same-volume restores only; "
+              "the string-level front of each command (which canonical arguments a command line denotes) is validated by "
+              "the history runs, where every step is also judged by the effect oracle")
 RULE = ("seeded histories (quick: 40 histories x <= 10 steps, thorough: 500 x <= 30) of put / restore / rm / empty / list over "
         "2-3 volumes with repeated names, nested paths, entries restored and trashed again; after every step the listing is "
-        "compared with Effects.bagLines of the on-disk state and the transition with the model's")
+        "compared with Effects.bagLines of the on-disk state, the step's effect with Effects.check (which entries may disappear) "
+        "and the transition with the model's")
 NAMES = [b"a", b"b", b"a b", b"doc.txt", b"caf\xc3\xa9", b"x%y", b"new\nline", b"d1"]
 
 
@@ -37,6 +42,25 @@ def trash_entries(state):
             if pm:
                 out.append((m.group(1), m.group(2), unquote_to_bytes(pm.group(1))))
     return out
+
+
+def meta_entries(state, home):
+    """the well-formed entries of the state as the effect oracle wants them: absolute location, recorded date"""
+    out, tdirs = [], set()
+    for t, n, rec in trash_entries(state):
+        m = re.match(rb"^(.*)/\.Trash(-\d+|/\d+)$", t)
+        base = (m.group(1) or b"/") if m else None
+        loc = rec if rec.startswith(b"/") or base is None else base.rstrip(b"/") + b"/" + rec
+        dm = re.search(rb"(?m)^DeletionDate=(.*)$", state[t + b"/info/" + n + b".trashinfo"][1])
+        out.append({"tdir": t, "name": n, "loc": loc, "rec": rec, "date": dm.group(1).decode("latin-1") if dm else "", "base": base})
+        tdirs.add(t)
+    return out, sorted(tdirs)
+
+
+def with_meta(wd, state, home):
+    ents, tdirs = meta_entries(state, home)
+    wd["meta"] = {"entries": ents, "tdirs": [(t, "dir") for t in tdirs], "profile": "c09", "payload_kinds": [], "sentinels": []}
+    return wd
 
 
 def history(task):
@@ -88,14 +112,20 @@ def history(task):
             wd = world_from_state(base, state, cmd="restore", cwd=R, opts={"path": b"/", "sort": rng.choice(["date", "path", "none"])},
                                   stdin=rng.choice([b"0", b"0", b"1", b"0-1", b""]) + b"\n")
             wd["argv"] = cmd_argv(wd)
-            r = readcheck.evaluate(wd, drv, oracles=())
+            r = readcheck.evaluate(with_meta(wd, state, home), drv, oracles=("effects",))
+            e = r["oracle"].get("effects")
+            if e is not None and not e["ok"]:
+                problems.append("step %d %s: %s" % (k, cmd, e["verdict"]))
         elif cmd == "rm":
             t, n, loc = rng.choice(ents)
             pat = rng.choice([os.path.basename(loc) or b"*", b"*", b"a*", b"nomatch"])
             pat = b"".join((b"[" + bytes([c]) + b"]") if c in b"[" else bytes([c]) for c in pat)
             wd = world_from_state(base, state, cmd="rm", cwd=home, args=[pat], opts={}, stdin=None)
             wd["argv"] = cmd_argv(wd)
-            r = readcheck.evaluate(wd, drv, oracles=())
+            r = readcheck.evaluate(with_meta(wd, state, home), drv, oracles=("effects",))
+            e = r["oracle"].get("effects")
+            if e is not None and not e["ok"]:
+                problems.append("step %d %s: %s" % (k, cmd, e["verdict"]))
         else:
             now = datetime.datetime.now() + datetime.timedelta(days=rng.choice([0, 1, 2]))
             days = rng.choice([None, 0, 1, 1, 3])
@@ -105,7 +135,10 @@ def history(task):
             env = dict(base["env"], TRASH_DATE=now.strftime("%Y-%m-%dT%H:%M:%S").encode())
             wd = world_from_state(base, state, cmd="empty", cwd=home, opts=o, env=env, stdin=None)
             wd["argv"] = cmd_argv(wd)
-            r = readcheck.evaluate(wd, drv, oracles=())
+            r = readcheck.evaluate(with_meta(wd, state, home), drv, oracles=("effects",))
+            e = r["oracle"].get("effects")
+            if e is not None and not e["ok"]:
+                problems.append("step %d %s: %s" % (k, cmd, e["verdict"]))
         steps.append(cmd)
         mism += [("step %d %s" % (k, cmd), m) for m in r["mismatch"]]
         if r.get("exc"):
